@@ -121,7 +121,7 @@ PTR_SIZES = {"unsigned char": 1, "char": 1, "signed char": 1, "unsigned short": 
 
 
 def type_str(n):
-    return (n.get("tc") or n.get("t") or "").replace("const ", "").replace("register ", "").replace("volatile ", "").strip()
+    return re.sub(r"\*\s*(const|volatile|restrict)\b\s*", "*", (n.get("tc") or n.get("t") or "").replace("const ", "").replace("register ", "").replace("volatile ", "")).strip()
 
 
 def pointee_size(n, records=None):
@@ -1998,7 +1998,13 @@ class Cap(object):
             if s is not None:
                 seq.append(("stmt", s))
         labels = [(i, x) for i, (t, x) in enumerate(seq) if t == "label"]
-        for s0, v in self.ev(n["cond"], st):
+        cond_ = n["cond"]
+        inner_ = X.strip(cond_)
+        if inner_ is not None and inner_ is not cond_ and (inner_.get("tw") or 0) == 8 and not inner_.get("tp") and inner_.get("k") in ("un", "index", "ref"):
+            # switch (*p): the promoted byte is compared with character constants - evaluate the byte itself, so that the case
+            # taken (and the default, which excludes every label) says what the byte is, as a test `*p == c` would
+            cond_ = inner_
+        for s0, v in self.ev(cond_, st):
             entry = []   # (state, start index)
             remaining = [s0]
             default_idx = None
